@@ -1633,18 +1633,18 @@ void EvalStrExpression(tStrComp const* pExpr, TempResult* pErg) {
         for (z1 = 0; z1 < cnt; z1++) {
             /* character constants are integers where an integer is expected: */
             if ((InVals[z1].Typ == TempString)
-                && (!(pFunction->ArgTypes[z1] & (1 << TempString)))
-                && (pFunction->ArgTypes[z1] & (1 << TempInt))) {
+                && (!(pFunction->ArgTypes[z1] & TempString))
+                && (pFunction->ArgTypes[z1] & TempInt)) {
                 if (TempResultToInt(&InVals[z1])) {
                     WrStrErrorPos(ErrNum_IntButString, &InArgs[z1]);
                     LEAVE;
                 }
             }
             if ((InVals[z1].Typ == TempInt)
-                && (!(pFunction->ArgTypes[z1] & (1 << TempInt)))) {
+                && (!(pFunction->ArgTypes[z1] & TempInt))) {
                 TempResultToFloat(&InVals[z1]);
             }
-            if (!(pFunction->ArgTypes[z1] & (1 << InVals[z1].Typ))) {
+            if (!(pFunction->ArgTypes[z1] & InVals[z1].Typ)) {
                 WrStrErrorPos(
                         DeduceExpectTypeErrMsgMask(
                                 pFunction->ArgTypes[z1], InVals[z1].Typ),
